@@ -198,6 +198,45 @@ def cmp(op, a, b):
     return atom(mk("cmp", op, a, b))
 
 
+def _nonzero_of(c, truth_):
+    """X if the condition term c having the truth value truth_ says X != 0 (X an unsigned quantity), else None"""
+    a = single_atom(c, "cmp")
+    if a is None:
+        return None
+    op, x, y = a.a
+    if op in ("==", "!="):
+        if (op == "!=") != truth_:
+            return None
+        if is_const(x) and x.a[0] == 0:
+            return y
+        if is_const(y) and y.a[0] == 0:
+            return x
+        return None
+    if op == "<" and truth_ and is_const(x) and x.a[0] == 0:
+        return y                    # 0 < X
+    if op == "<=" and not truth_ and is_const(y) and y.a[0] == 0:
+        return x                    # !(X <= 0)
+    return None
+
+
+def _holds(assumes, c0, cond_node):
+    """is the condition term c0 implied by the assumptions ((term, truth) pairs)?  Only `X != 0` in its spellings, for an
+    unsigned X"""
+    if is_const(c0):
+        return bool(c0.a[0])
+    want = _nonzero_of(c0, True)
+    if want is None:
+        return False
+    s = X.strip(cond_node) if cond_node is not None else None
+    if s is not None and s.get("k") == "bin" and s.get("op") in ("<", ">", "<=", ">="):
+        if any((X.strip(ch) or {}).get("ts") or ch.get("ts") for ch in s["ch"]):
+            return False            # a signed comparison: 0 < X is not X != 0
+    for c, t in assumes:
+        if _nonzero_of(c, t) is want:
+            return True
+    return False
+
+
 def lnot(a):
     if is_const(a):
         return const(int(a.a[0] == 0))
@@ -253,6 +292,29 @@ def ite(c, a, b):
                     z_ = const(0)
                     if (ca.a[1] is n_ and ca.a[2] is z_) or (ca.a[2] is n_ and ca.a[1] is z_):
                         return b
+        # the same with the loop's result passed on through further arithmetic (N == 0 ? f(init) : f(loop-result)): replacing
+        # every result of a loop that runs while t < N from t = 0 by its initial value in b must give a
+        z_ = const(0)
+        n_ = ca.a[2] if ca.a[1] is z_ else (ca.a[1] if ca.a[2] is z_ else None)
+        if n_ is not None and not is_const(n_):
+            hit = [False]
+
+            def zero_trips(x):
+                if x.k == "loopout":
+                    L, r = x.a[0], x.a[1]
+                    lc = single_atom(L.a[2], "cmp")
+                    if lc is not None and lc.a[0] == "<" and lc.a[2] is n_:
+                        tl = single_atom(lc.a[1], "lv")
+                        if tl is not None and tl.a[0] == L.a[0] and is_const(L.a[1][tl.a[1]]) and L.a[1][tl.a[1]].a[0] == 0:
+                            hit[0] = True
+                            return L.a[1][r]
+                return None
+            try:
+                b0 = rebuild(b, zero_trips, {})
+            except Exception:
+                b0 = None
+            if hit[0] and b0 is a:
+                return b
     return atom(mk("ite", c, a, b))
 
 
@@ -676,12 +738,22 @@ class Evaluator:
                 self.run(stmt["else"], e2)
             env.setdefault("$done", const(0))
             env.setdefault("$ret", const(0))
+            pre_done = env["$done"]
             for d in set(e1) | set(e2):
+                if d == "$assume":
+                    continue
                 a = e1.get(d, env.get(d))
                 b = e2.get(d, env.get(d))
                 if a is None or b is None:
                     continue
                 env[d] = ite(c, a, b)
+            # an arm that always returns: what follows runs (and its result is used) only when the test came out the other way
+            if is_const(pre_done) and pre_done.a[0] == 0:
+                d1, d2 = e1.get("$done", pre_done), e2.get("$done", pre_done)
+                if is_const(d1) and d1.a[0] == 1 and is_const(d2) and d2.a[0] == 0:
+                    env["$assume"] = tuple(env.get("$assume", ())) + ((c, False),)
+                elif is_const(d2) and d2.a[0] == 1 and is_const(d1) and d1.a[0] == 0:
+                    env["$assume"] = tuple(env.get("$assume", ())) + ((c, True),)
             return None
         if k == "do" and stmt.get("cond") is not None and X.const_val(stmt["cond"]) == 0:
             self.run_any(stmt["body"], env)          # do { ... } while (0): a statement wrapper, not a loop
@@ -721,7 +793,13 @@ class Evaluator:
         for i, d in enumerate(mods):
             le[d] = atom(mk("lv", depth, i))
         if k == "do":
-            raise Unsupported("do-while loop")
+            # do B while (c) is while (c) B when c holds on entry: decided from the tests whose other outcome has already
+            # returned (if (len == 0) return ..; i = 0; do { .. } while (i < len);)
+            c0 = truth(self.ev(stmt["cond"], dict(env))) if stmt.get("cond") is not None else const(1)
+            if self.modified(stmt["cond"]) if stmt.get("cond") is not None else False:
+                raise Unsupported("side effect in loop condition")
+            if not _holds(env.get("$assume", ()), c0, stmt.get("cond")):
+                raise Unsupported("do-while loop whose condition is not known to hold on entry")
         cond = truth(self.ev(stmt["cond"], dict(le))) if stmt.get("cond") is not None else const(1)
         # side effects in the condition are not supported
         be = dict(le)
